@@ -345,6 +345,10 @@ class Host(HostBase):
                     self.ctx.assume_le0(Lin.k(k) - f)
                     return v.items[k]
                 raise self.unsupported(node, f"symbolic index {idx!r} into concrete sequence of {n}")
+            if isinstance(idx, (Opaque, Term)) and v.items:
+                # an index only known to be some element of unbounded data (e.g. a flag drawn by random.sample):
+                # one of the items, which one is not known
+                return Term("select", (v, idx), self.ctx.new_id())
             raise self.raise_("TypeError", f"sequence indices must be integers, not {idx!r}", node)
         if isinstance(v, PyDict):
             if isinstance(idx, SymChar):
